@@ -355,6 +355,10 @@ def cases(draw):
         params = draw(st.sampled_from(["$absent", {}, {"protocolVersion": "2025-06-18", "clientInfo": {"name": "c", "version": "1"}, "capabilities": {}}, {"protocolVersion": 5}, {"clientInfo": None}]))
     else:
         params = draw(st.one_of(st.just("$absent"), st.just({}), json_objects(5)))
+    if isinstance(params, dict) and draw(st.integers(0, 3)) == 0:
+        # `_meta` is reserved on every params object; a well-formed message may carry anything there
+        params = dict(params, _meta=draw(st.one_of(st.none(), st.just({}), st.just({"progressToken": "t-1"}), st.just({"progressToken": 7, "x": None}), json_text, st.integers(-1, 3), st.booleans(),
+                                                  st.lists(st.integers(0, 2), max_size=2), json_objects(3))))
     case: Dict[str, Any] = {"server": prog, "method": method, "params": params, "how": draw(st.sampled_from(["parse", "unified", "specific"]))}
     if draw(st.integers(0, 2)) > 0:
         case["id"] = draw(_ids)
